@@ -9,6 +9,8 @@ TEXT = [  # value classes of the quantifier (single-line, no leading/trailing bl
     {"relname": "My  Prodüct; v=2: #beta [x]", "relshort": "MY;P", "relver": "rawhide", "bpname": "b = c", "bpshort": "B:1", "bpver": "10.0.3",
      "vname": "Ünï %s # ; = :"},
     {"relname": "UPPER lower", "relshort": "Up", "relver": "7.1", "bpname": "\"quoted\"", "bpshort": "'q'", "bpver": "snapshot", "vname": "[%s]"},
+    # short name equal to the name (Fedora / Fedora), for the release and for the base product
+    {"relname": "Fedora", "relshort": "Fedora", "relver": "40", "bpname": "CentOS", "bpshort": "CentOS", "bpver": "9", "vname": "%s"},
 ]
 PCT = {"relname": "100%% pure %(arch)s", "relshort": "P%", "relver": "22", "bpname": "b%", "bpshort": "B", "bpver": "7", "vname": "%s %%"}
 IDS = [{"A": "Server", "B": "Client", "S": "Server", "o": "optional", "T": "Tools", "h": "HighAvailability", "g": "Extras"},
